@@ -51,9 +51,9 @@ struct Args {
   mpz_class mpz[MAXA];
   FILE* file[MAXA];
   std::string sin;
-  bool ok, use_fork;
+  bool ok, use_fork, truncated;
   std::vector<int> temps;      // objects to release right after the step (iterators, borrowed)
-  Args() : ok(true), use_fork(false) { for (int i = 0; i < MAXA; ++i) { a[i].z = 0; st[i].z = 0; obj[i] = -1; file[i] = 0; } }
+  Args() : ok(true), use_fork(false), truncated(false) { for (int i = 0; i < MAXA; ++i) { a[i].z = 0; st[i].z = 0; obj[i] = -1; file[i] = 0; } }
 };
 
 static bool is_dimensioned(int type) {
@@ -86,7 +86,10 @@ static std::vector<Mut> mutations_of(const Fn* f) {
         && !schema_has(f, "concatenate") && !schema_has(f, "assign_@TOPOLOGY@") && !schema_has(f, "ranking_function")) { m.kind = MUT_DIM_MISMATCH; v.push_back(m); }
     if (s.kind == K_HIN && type_table[s.type].cat == CAT_POLY && s.topo == 0 && first_dimd >= 0 && k > first_dimd
         && type_table[f->args[first_dimd].type].cat == CAT_POLY) { m.kind = MUT_TOPO; v.push_back(m); }
-    if (s.kind == K_DIM && (has_name(s, "var") || has_name(s, "d") || has_name(s, "m")) && first_dimd >= 0 && !(f->flags & F_INDEX)) { m.kind = MUT_BIG_VAR; v.push_back(m); m.kind = MUT_HUGE; v.push_back(m); }
+    if (s.kind == K_DIM && (has_name(s, "var") || has_name(s, "d") || has_name(s, "m")) && first_dimd >= 0 && !(f->flags & F_INDEX)
+        && !strstr(f->name, "_has_")) {
+      // (Box::has_upper/lower_bound: `var' in range is an asserted precondition)
+      m.kind = MUT_BIG_VAR; v.push_back(m); m.kind = MUT_HUGE; v.push_back(m); }
     if (s.kind == K_DIM && first_dimd < 0 && has_name(s, "d")) { m.kind = MUT_HUGE; v.push_back(m); }
     if (s.kind == K_HIN && type_table[s.type].cat == CAT_COEF && s.is_const && (has_name(s, "d") || has_name(s, "m"))) { m.kind = MUT_ZERO_DEN; v.push_back(m); }
     if (s.kind == K_ENUM || (s.kind == K_INT && has_name(s, "complexity"))) { m.kind = MUT_BAD_ENUM; v.push_back(m); }
@@ -153,17 +156,12 @@ static void synth(Case& c, const Fn* f, const Mut& mut, bool reuse, Args& A) {
   }
   if (c.failed) { A.ok = false; return; }
   // preconditions that are only asserted by the C++ library
-  if ((F & (F_WIDEN | F_NARROW)) && A.obj[0] >= 0 && A.obj[1] >= 0 && mut.kind == MUT_NONE) {
+  if ((F & (F_WIDEN | F_NARROW)) && A.obj[0] >= 0 && A.obj[1] >= 0
+      && !((mut.arg == 0 || mut.arg == 1) && (mut.kind == MUT_DIM_MISMATCH || mut.kind == MUT_TOPO))) {
     std::string d = type_table[f->args[0].type].name;
     std::string g = "ppl_" + d + ((F & F_WIDEN) ? "_upper_bound_assign" : "_intersection_assign");
     int r = ccall(c, g, vp(A.a[0].p), vp(A.a[1].p));
     if (r != 0) { if (!c.failed) hx::inconclusive("precondition_not_established"); A.ok = false; return; }
-  }
-  // Known core defect kept out of the way (reported, see the engine report): Grid::add_recycled_grid_generators
-  // on an empty-but-unmarked grid ignores the result of update_generators() and indexes an empty generator system.
-  if (f->home >= 0 && !strcmp(type_table[f->home].name, "Grid") && schema_has(f, "grid_generator") && strstr(f->name, "_add_") && A.obj[0] >= 0) {
-    hx::count("known_defect_avoided.Grid_add_grid_generators_on_unmarked_empty");
-    if (ccall(c, "ppl_Grid_is_empty", vp(A.a[0].p)) < 0) { A.ok = false; return; }
   }
   long rdim = obj_dim(c, recv);
   if (rdim < 0) rdim = n;
@@ -223,7 +221,10 @@ static void synth(Case& c, const Fn* f, const Mut& mut, bool reuse, Args& A) {
       size_t v = 0;
       if (mutated && mut.kind == MUT_HUGE) v = (size_t) -1 - (size_t) hx::rnd(0, 1);
       else if (mutated && mut.kind == MUT_BIG_VAR) v = (size_t) rdim + (size_t) hx::rnd(has_name(s, "var") ? 0 : 1, 3);
-      else if (has_name(s, "var")) v = rdim > 0 ? (size_t) hx::rnd(0, (int) rdim - 1) : 0;
+      else if (has_name(s, "var")) {
+        if (rdim == 0 && strstr(f->name, "_has_")) { hx::inconclusive("no_variable_for_asserted_precondition"); A.ok = false; return; }
+        v = rdim > 0 ? (size_t) hx::rnd(0, (int) rdim - 1) : 0;
+      }
       else if (has_name(s, "d")) {
         if (schema_has(f, "from_space_dimension") || schema_has(f, "new_MIP_Problem") || schema_has(f, "new_PIP_Problem")) v = (size_t) n;
         else if (schema_has(f, "with_dimension")) v = (size_t) hx::rnd(0, 3);
@@ -339,10 +340,11 @@ static void synth(Case& c, const Fn* f, const Mut& mut, bool reuse, Args& A) {
       if (other < 0) { A.ok = false; return; }
       A.sin = ti.ops->dump(c.objs[other].h);
     }
-    if (hx::coin(12)) A.sin = A.sin.substr(0, A.sin.size() / 2);   // truncated: must be refused with PPL_STDIO_ERROR
+    if (hx::coin(12)) { A.sin = A.sin.substr(0, A.sin.size() / 2); A.truncated = true; }   // truncated: must be refused with PPL_STDIO_ERROR
     for (int k = 0; k < f->nargs; ++k) if (A.file[k]) { fputs(A.sin.c_str(), A.file[k]); rewind(A.file[k]); }
   }
-  if (mut.kind == MUT_BAD_ENUM) A.use_fork = true;
+  const bool casts_topology = schema_has(f, "@UB_EXACT@") || schema_has(f, "positive_time_elapse") || schema_has(f, "linear_@PARTITION@");
+  if (mut.kind == MUT_BAD_ENUM || mut.kind == MUT_HUGE || (mut.kind == MUT_TOPO && casts_topology)) A.use_fork = true;   // may corrupt memory instead of being refused: isolated
 }
 
 // Genuine defects of the core library (not of the C interface) that kill the process: the call is
@@ -350,15 +352,7 @@ static void synth(Case& c, const Fn* f, const Mut& mut, bool reuse, Args& A) {
 static bool known_core_defect(Case& c, const Fn* f, const Args& A) {
   (void) c;
   const char* home = f->home >= 0 ? type_table[f->home].name : "";
-  if (strstr(home, "Box") && strstr(f->name, "bounded_affine_preimage") && A.obj[2] >= 0 && A.obj[3] >= 0) {
-    // Box::bounded_affine_preimage divides by the coefficient of `var' in ub_expr / lb_expr (Box_templates.hh:3476, :3513)
-    const Linear_Expression& lb = *static_cast<const Linear_Expression*>(A.a[2].p);
-    const Linear_Expression& ub = *static_cast<const Linear_Expression*>(A.a[3].p);
-    size_t v = A.a[1].z;
-    bool lz = v >= lb.space_dimension() || lb.coefficient(Variable(v)) == 0;
-    bool uz = v >= ub.space_dimension() || ub.coefficient(Variable(v)) == 0;
-    if (lz != uz || (lz && uz)) { hx::count("known_defect_avoided.Box_bounded_affine_preimage_zero_var_coefficient"); return lz != uz; }
-  }
+  (void) home; (void) A;   // (none at present: the two that were needed have been repaired in the tree)
   return false;
 }
 
@@ -417,20 +411,46 @@ static bool check_tight(Case& c, const Fn* f, const CallResult& cr, const std::s
   return true;
 }
 
-static bool check_handles_ok(Case& c, const Fn* f, const Args& A, const CallResult& cr, const std::string& what) {
+// BD_Shape_mpz_class -> BD_Shape, Pointset_Powerset_C_Polyhedron -> Pointset_Powerset, Double_Box -> Box, ...
+static std::string type_family(const std::string& n) {
+  if (n.find("Pointset_Powerset") == 0) return "Pointset_Powerset";
+  if (n.find("_Product_") != std::string::npos) return n.substr(0, n.find("_Product_") + 8);
+  if (n.find("_Box") != std::string::npos) return "Box";
+  const char* suf[] = { "_mpz_class", "_mpq_class", "_double", "_float", "_long_double", "_int8_t", "_int16_t", "_int32_t", "_int64_t" };
+  for (size_t i = 0; i < sizeof suf / sizeof suf[0]; ++i) { size_t l = strlen(suf[i]); if (n.size() > l && n.compare(n.size() - l, l, suf[i]) == 0) return n.substr(0, n.size() - l); }
+  return n;
+}
+
+static bool check_handles_ok(Case& c, const Fn* f, const Args& A, const CallResult& cr, const std::string& what, bool isolate) {
   for (int k = 0; k < f->nargs; ++k) {
     if (A.obj[k] < 0) continue;
     Obj& o = c.objs[A.obj[k]];
     if (!o.alive) continue;
-    if ((f->flags & F_IO_FILE_IN) && cr.r < 0 && k == 0) continue;       // state after a refused ascii_load is unspecified
+    if ((f->flags & F_IO_FILE_IN) && (cr.r < 0 || A.truncated) && k == 0) continue;       // state after a refused ascii_load is unspecified
     const Fn* okf = find_fn(std::string("ppl_") + type_table[o.type].name + "_OK");
     if (!okf || !okf->call) continue;
-    int r = ccall(c, okf->name, vp(o.h));
+    int r;
+    std::string cls = cr.r < 0 ? std::string("after_error:") + code_name(cr.r) : "after_success";
+    if (isolate) {
+      // an interrupted operation may leave an object on which OK() itself crashes: look at it from a child process
+      Val a[MAXA]; a[0].p = o.h;
+      hx::count("calls.forked");
+      CallResult k2 = forked([okf, &a]() { return okf->call(a); }, false);
+      if (k2.crashed || k2.escaped) {
+        viol(c, std::string("C20.handle.not_ok.") + type_family(type_table[o.type].name) + "." + cls + ":crash", what + ": " + okf->name + " on argument " + f->args[k].name + " crashes afterwards");
+        o.alive = false; o.owned = false;     // not released: its destructor cannot be trusted either
+#if CIF_ASAN
+        __lsan_ignore_object(o.h);
+#endif
+        return false;
+      }
+      r = k2.r;
+    }
+    else r = ccall(c, okf->name, vp(o.h));
     hx::checked(1);
     if (c.failed) return false;
     if (r <= 0) {
-      std::string cls = cr.r < 0 ? std::string("after_error:") + code_name(cr.r) : "after_success";
-      viol(c, std::string("C20.handle.not_ok.") + f->pattern + "." + cls, what + ": argument " + f->args[k].name + " fails " + okf->name + " (" + itos(r) + ")");
+      viol(c, std::string("C20.handle.not_ok.") + type_family(type_table[o.type].name) + "." + cls, what + ": argument " + f->args[k].name + " fails " + okf->name + " (" + itos(r) + ")");
       return false;
     }
   }
@@ -501,6 +521,41 @@ static StepOut step(Case& c, const Fn* f, const Mut& mut, Mode mode, long arm_k,
   hx::tr(what + "\n");
   hx::count(std::string("scenario.") + MUT_NAME[mut.kind]);
 
+  // every argument built through the interface must be a well-formed object before the call
+  for (int k = 0; k < f->nargs; ++k) if (A.obj[k] >= 0 && f->args[k].kind == K_HIN) {
+    const TypeInfo& ti = type_table[f->args[k].type];
+    if (ti.cat == CAT_ITER || ti.cat == CAT_BORROWED) continue;
+    int okv = 1;
+    try { okv = ti.ops->ok(A.a[k].p); } catch (...) { okv = 0; }
+    hx::checked(1);
+    if (!okv) {
+      viol(c, "C20.handle.not_ok." + type_family(ti.name) + ".built_object", "an object built through the C constructors / mutators fails OK() before being used as argument " + std::string(f->args[k].name) + " of " + f->name + ": " + ti.ops->dump(A.a[k].p).substr(0, 400));
+      release_temps(c, A); return so;
+    }
+  }
+  // Ill-formed arguments may crash the library instead of being refused: the call is first tried in a
+  // child process; only if it survives there are the twin and the real call run in this process.
+  if (mode == M_PLAIN && mut.kind != MUT_NONE && !A.use_fork && !(F & F_IO_STDOUT)) {
+    Val* pv = A.a;
+    hx::count("calls.forked");
+    CallResult probe = forked([f, pv]() { return f->call(pv); }, false);
+    for (int k = 0; k < MAXA; ++k) if (A.file[k]) {
+      if (F & F_IO_FILE_IN) rewind(A.file[k]);
+      else { rewind(A.file[k]); if (ftruncate(fileno(A.file[k]), 0) != 0) {} }
+    }
+    if (probe.crashed) {
+      hx::checked(1);
+      viol(c, std::string("C20.code.") + f->pattern + ".crash", what + " died in the isolated child (" + (probe.crash_sig > 0 ? "signal " + itos(probe.crash_sig) : "sanitizer report, exit status " + itos(-probe.crash_sig)) + ")");
+      release_temps(c, A); so.called = true; so.cr = probe; return so;
+    }
+  }
+  // distinct-configuration rule: a call whose receiver is a domain element counts as non-trivial
+  // only if that element is neither empty nor universe (decided on a copy, before the call)
+  bool trivial_recv = false; std::string recv_class = "-";
+  if (f->nargs > 0 && f->args[0].kind == K_HIN && A.obj[0] >= 0 && type_table[f->args[0].type].ops->trivial) {
+    trivial_recv = type_table[f->args[0].type].ops->trivial(A.a[0].p) != 0;
+    recv_class = trivial_recv ? "trivial" : "proper";
+  }
   // ---- twin on pre-call copies ----
   Twin t; t.f = f; t.a = A.a; t.has_sout = false; t.ret = 0; t.sin = A.sin;
   void* pre[MAXA]; std::string dump_before[MAXA], tdump_before[MAXA];
@@ -522,6 +577,7 @@ static StepOut step(Case& c, const Fn* f, const Mut& mut, Mode mode, long arm_k,
       else if (s.kind == K_CSPTR && A.a[k].p) t.cp[k] = type_table[s.type].ops->clone(A.st[k].p);
     }
     try { f->twin(t); }
+    catch (const Undefined&) { use_twin = false; hx::count("twin_undefined"); }
     catch (const std::exception& e) { texc = exception_code(e); twhat = e.what(); }
     catch (...) { texc = PPL_ERROR_UNEXPECTED_ERROR; twhat = "non-standard"; }
   }
@@ -551,6 +607,16 @@ static StepOut step(Case& c, const Fn* f, const Mut& mut, Mode mode, long arm_k,
       viol(c, "C20.code." + pat + ".bad_enum_accepted", what + " returned " + itos(cr.r) + " for an out-of-range enumeration value" + (created_nothing ? " and created no object" : ""));
       ok = false;
     }
+  }
+  // a dimension beyond every domain's maximum must be refused (PPL_ERROR_LENGTH_ERROR or INVALID_ARGUMENT)
+  if (ok && mut.kind == MUT_HUGE) {
+    hx::checked(1);
+    if (cr.r >= 0) { viol(c, "C20.code." + pat + ".huge_dimension_accepted", what + " returned " + itos(cr.r)); ok = false; }
+  }
+  // two polyhedra of different topologies: refused by every C++ operation (invalid_argument)
+  if (ok && mut.kind == MUT_TOPO && A.use_fork) {
+    hx::checked(1);
+    if (cr.r >= 0) { viol(c, "C20.code." + pat + ".topology_mismatch_accepted", what + " returned " + itos(cr.r) + " (the interface static_casts the argument to the receiver's class, so the library's topology check never sees the mismatch)"); ok = false; }
   }
   if (ok && mode == M_ALLOC && cr.fired) {
     hx::checked(1); hx::count("alloc.failure_points");
@@ -591,7 +657,7 @@ static StepOut step(Case& c, const Fn* f, const Mut& mut, Mode mode, long arm_k,
           if (pre[k]) {
             if (!ops->equal(A.a[k].p, pre[k])) { viol(c, "C20.const_modified." + pat, what + ": const argument " + s.name + " changed value: before {" + dump_before[k].substr(0, 500) + "} after {" + ops->dump(A.a[k].p).substr(0, 500) + "}"); ok = false; break; }
             std::string after = ops->dump(A.a[k].p);
-            if (after != dump_before[k] && tdump_before[k] == dump_before[k] && ops->dump(t.cp[k]) == tdump_before[k]) {
+            if (!(F & (F_IO_STDOUT | F_IO_FILE_OUT | F_IO_STR)) && after != dump_before[k] && tdump_before[k] == dump_before[k] && ops->dump(t.cp[k]) == tdump_before[k]) {
               viol(c, "C20.const_modified." + pat, what + ": representation of const argument " + s.name + " changed although the C++ operation leaves it untouched: before {" + dump_before[k].substr(0, 500) + "} after {" + after.substr(0, 500) + "}"); ok = false; break;
             }
           }
@@ -656,22 +722,22 @@ static StepOut step(Case& c, const Fn* f, const Mut& mut, Mode mode, long arm_k,
   if (!A.use_fork && !cr.escaped) {
     for (int k = 0; k < f->nargs; ++k) {
       const ArgSpec& s = f->args[k];
-      if (s.kind == K_HOUT && cr.r >= 0 && A.st[k].p) add_obj(c, A.st[k].p, s.type, true, -1);
+      if (s.kind == K_HOUT && cr.r >= 0 && A.st[k].p) {
+        if ((F & F_PARTITION) && !heap_object(A.st[k].p, type_table[s.type].ops->size)) continue;   // dangling: never touched
+        add_obj(c, A.st[k].p, s.type, true, -1);
+      }
       if (s.kind == K_PSTR && A.st[k].p) { free(A.st[k].p); A.st[k].p = 0; }
     }
     if ((F & F_DELETE) && cr.r >= 0 && A.obj[0] >= 0) { c.objs[A.obj[0]].alive = false; ++c.deleted; }
   }
-  if (ok && !A.use_fork) ok = check_handles_ok(c, f, A, cr, what);
+  if (ok && !A.use_fork) ok = check_handles_ok(c, f, A, cr, what, mode != M_PLAIN && cr.r < 0);
 
-  // ---- distinct configurations (non-trivial: receiver neither empty nor universe, or no receiver) ----
-  {
-    bool trivial = false;
-    if (A.obj[0] >= 0 && c.objs[A.obj[0]].alive && type_table[c.objs[A.obj[0]].type].is_domain && t.cp[0] && f->args[0].kind == K_HIN) {
-      // decided on the twin copy, never on the monitored object
-    }
+  // ---- distinct configurations ----
+  if (!trivial_recv) {
     std::string tok = std::string(f->name) + "|" + MUT_NAME[mut.kind] + "|" + (cr.r < 0 ? code_name(cr.r) : "ok") + "|" + itos(c.dim) + "|" + (mode == M_PLAIN ? "plain" : mode == M_ALLOC ? "alloc" : "timeout");
-    if (!trivial) hx::distinct(tok);
+    hx::distinct(tok);
   }
+  else hx::count("trivial_receiver");
 
   // ---- release twin side ----
   for (int k = 0; k < f->nargs; ++k) {
@@ -729,7 +795,13 @@ static void run_special(Case& c, const Fn* f, Mode mode, long arm_k) {
   }
   if (n == "ppl_thread_initialize" || n == "ppl_thread_finalize") {
     tight_simple(c, f, []() { return ppl_thread_initialize(); }, 0, 0, "ppl_thread_initialize() (already initialised)");
-    hx::count("special.thread_finalize_not_driven_with_live_state");
+    // finalising the thread destroys the library's per-thread constants: done in a child process only
+    hx::tr("ppl_thread_finalize(); ppl_thread_initialize() [isolated]\n"); hx::count("calls"); hx::count("calls.forked");
+    CallResult cr = forked([]() { int r = ppl_thread_finalize(); if (r != 0) return r; r = ppl_thread_initialize(); if (r != 0) return r - 100;
+                                  ppl_Coefficient_t z = 0; r = ppl_new_Coefficient(&z); if (r != 0) return r - 200; return ppl_delete_Coefficient(z); }, false);
+    if (!check_tight(c, f, cr, "ppl_thread_finalize(); ppl_thread_initialize()")) return;
+    hx::checked(1);
+    if (cr.r != 0) viol(c, "C20.code.ppl_thread_finalize.spurious_error", "finalize / initialize / new Coefficient sequence returned " + itos(cr.r));
     return;
   }
   if (n == "ppl_set_rounding_for_PPL" || n == "ppl_restore_pre_PPL_rounding") {
